@@ -549,7 +549,7 @@ pub fn run(tier: Tier) -> i32 {
         wdocs.push((format!("<svg>{e}</svg>"), format!("no-user-unit-box/{k}")));
     }
     // (characters which look blank but are not XML white space are content)
-    for (k, e) in ["<text x=\"1\" y=\"2\">&#160;</text>", "<text x=\"1\" y=\"8\">&#x2003;</text>", "<text x=\"1\" y=\"2\"><tspan>&#160;</tspan></text>", "<rect width=\"5\" height=\"5\"><title>&#160;</title></rect>"].iter().enumerate() {
+    for (k, e) in ["<text x=\"1\" y=\"2\">&#160;</text>", "<text x=\"1\" y=\"8\">&#x2003;</text>", "<text x=\"1\" y=\"2\"><tspan>&#160;</tspan></text>", "<rect width=\"5\" height=\"5\"><title>&#160;</title></rect>", "<text x=\"1\" y=\"2\"><tspan>a</tspan>&#160;\n<tspan>b</tspan></text>", "<rect width=\"5\" height=\"5\"><desc>one&#x2003;\ntwo</desc></rect>"].iter().enumerate() {
         wdocs.push((format!("<svg>{e}</svg>"), format!("blank-characters-are-content/{k}")));
     }
     let st = run_space(wdocs.len(), |i| check(&wdocs[i].0, "whitespace-content", &wdocs[i].1));
